@@ -19,7 +19,6 @@ import (
 	"time"
 
 	sdkmath "cosmossdk.io/math"
-	"github.com/cosmos/cosmos-sdk/crypto/keys/ed25519"
 	sdk "github.com/cosmos/cosmos-sdk/types"
 	sdkvesting "github.com/cosmos/cosmos-sdk/x/auth/vesting/types"
 	"github.com/cosmos/cosmos-sdk/x/authz"
@@ -425,7 +424,9 @@ func lkAmount(op lkOp, base *big.Int) *big.Int {
 	return bigOf(op.Amt)
 }
 
-var lkSpendOps = map[string]bool{"send": true, "multisend": true, "authzsend": true, "ethsend": true, "ethcontract": true, "daofund": true,
+var lkStrict = true // "balance >= locked" demanded after every successful transaction other than a delegation (-arg strict=0: only after the account's own spends)
+
+var lkSpendOps = map[string]bool{"erc20send": true, "send": true, "multisend": true, "authzsend": true, "ethsend": true, "ethcontract": true, "daofund": true,
 	"govdeposit": true, "convertcoin": true, "fee": true, "ethfee": true}
 var lkDelegOps = map[string]bool{"delegate": true, "authzdelegate": true, "pdelegate": true}
 
@@ -447,7 +448,7 @@ func (e *lkEnv) apply(op lkOp, pre *lkSnap) lkStep {
 		if op.Op == "ethsend" || op.Op == "ethcontract" || op.Op == "daofund" || op.Op == "fee" || op.Op == "ethfee" {
 			d = 0
 		}
-		if op.Op == "convertcoin" {
+		if op.Op == "convertcoin" || op.Op == "erc20send" {
 			d = 1
 		}
 		x := lkAmount(op, pre.spendable(d))
@@ -463,7 +464,7 @@ func (e *lkEnv) apply(op lkOp, pre *lkSnap) lkStep {
 		}
 		coins := lkCoins2(st.amt)
 		switch op.Op {
-		case "send":
+		case "send", "erc20send":
 			_, st.err = e.runMsg(banktypes.NewMsgSend(lkAccV, lkR, coins))
 		case "multisend":
 			half := sdk.Coins{}
@@ -556,8 +557,11 @@ func (e *lkEnv) apply(op lkOp, pre *lkSnap) lkStep {
 				return st
 			}
 			_, st.err = e.runMsg(stakingtypes.NewMsgUndelegate(lkAccV, val, lkCoin(0, x)))
-			// the unbonding entry holds what the shares were worth (token rounding): see the resync step
-			st.coq = append(st.coq, fmt.Sprintf("L2Undelegate %s", z(x)))
+			// whether the staking module accepts the amount is its own business (shares/tokens rounding): the model
+			// sees accepted undelegations only; the unbonding entry holds what the shares were worth: see the resync step
+			if st.err == nil {
+				st.coq = append(st.coq, fmt.Sprintf("L2Undelegate %s", z(x)))
+			}
 		case "adv":
 			e.tick(op.DT)
 			st.coq = append(st.coq, fmt.Sprintf("L2Advance %s", coqZi(int64(op.DT))))
@@ -646,7 +650,8 @@ func (e *lkEnv) setupAccount(in lkInput) error {
 			return fmt.Errorf("create: %w", err)
 		}
 		if cs := lkCoins2(extra); !cs.IsZero() {
-			if _, err := e.runMsg(banktypes.NewMsgSend(lkF, lkAccV, cs)); err != nil {
+			// plain keeper credit: MsgSend of a denomination with an ERC20 pair would deliver tokens
+			if err := e.App.BankKeeper.SendCoins(e.Ctx, lkF, lkAccV, cs); err != nil {
 				return err
 			}
 		}
@@ -713,6 +718,15 @@ func lockedRunCase(id string, in lkInput) Case {
 		}
 		post := e.snap()
 		ok := st.err == nil
+		if op.Op == "erc20send" {
+			// MsgSend of a denomination with a registered ERC20 pair: the whole spendable coin balance is
+			// converted to tokens, then tokens are transferred; the model sees the coin debit that happened
+			st.coq = nil
+			if debit := sub(pre.bal[1], post.bal[1]); ok && debit.Sign() > 0 {
+				st.coq = []string{fmt.Sprintf("L2Send 0%%Z %s", coqZ(debit))}
+				tags["erc20-route-send:coins-converted"] = true
+			}
+		}
 		obsAll = append(obsAll, post.obs(st.err))
 		res := "ok"
 		if !ok {
@@ -757,6 +771,9 @@ func lockedRunCase(id string, in lkInput) Case {
 		}
 		if under {
 			tags[fmt.Sprintf("balance-below-locked after %s (slashed-before=%v)", op.Op, slashed)] = true
+			if lkStrict && ok && !lkDelegOps[op.Op] && op.Op != "adv" && op.Op != "endblock" && op.Op != "slash" {
+				fail(i, op, "after this successful transaction the balance is below the locked amount")
+			}
 		}
 		// ---- model steps
 		if op.Op == "slash" && ok {
@@ -771,6 +788,9 @@ func lockedRunCase(id string, in lkInput) Case {
 			if ok {
 				x := lkAmount(op, pre.deleg)
 				expDeleg.Sub(expDeleg, x)
+				if expDeleg.Sign() < 0 { // share rounding: the staking module accepted more than it reports as bonded
+					expDeleg.SetInt64(0)
+				}
 				expUnb.Add(expUnb, x)
 			}
 		}
@@ -823,6 +843,16 @@ func lockedRunCase(id string, in lkInput) Case {
 	c.Coq = fmt.Sprintf("(%s,\n  [%s])", init, strings.Join(steps, ";\n   "))
 	c.OracleOK = oracle == ""
 	c.OracleMsg = oracle
+	// class = shape of the input: a grant is merged after the account's stake was slashed
+	seenSlash := false
+	for _, op := range in.Ops {
+		if op.Op == "slash" {
+			seenSlash = true
+		}
+		if op.Op == "grant" && seenSlash {
+			c.Class = "vesting:grant-after-slash"
+		}
+	}
 	c.Nontrivial = nOKSpend >= 1 && nOKDeleg+nOKSpend >= 3
 	c.Tags = tl
 	return c
@@ -895,7 +925,7 @@ func lkGen(r *Rng) lkInput {
 	in.Erc20 = r.Chance(25)
 	spend := []string{"send", "send", "multisend", "authzsend", "ethsend", "ethsend", "ethcontract", "daofund", "govdeposit", "fee", "ethfee"}
 	if in.Erc20 {
-		spend = append(spend, "convertcoin", "convertcoin")
+		spend = append(spend, "convertcoin", "convertcoin", "erc20send")
 	}
 	dlg := []string{"delegate", "authzdelegate", "pdelegate"}
 	n := 18 + r.Intn(14)
@@ -937,6 +967,7 @@ func lkGen(r *Rng) lkInput {
 }
 
 func lockedDriver(cfg Config, out *Out) error {
+	lkStrict = cfg.Args["strict"] != "0"
 	if cfg.Replay != "" {
 		i := 0
 		return readReplayInputs(cfg.Replay, func(raw json.RawMessage) error {
@@ -955,5 +986,3 @@ func lockedDriver(cfg Config, out *Out) error {
 	}
 	return nil
 }
-
-var _ = ed25519.GenPrivKey
